@@ -10,12 +10,20 @@ C16, second pass on the whole-function models of Pollard P-1 (Model/Pm1Impl.lean
     ingredients the first pass listed as missing for `pm1_impl_no_panic`); `pm1_gap_table_in_range`: the gap-table index
     bounds (the second); `pm1_walk_block_no_panic`: a sieve block of the prime walk never panics;
     `pm1_walk_stop_prime_found`, `pm1_walk_found_partial`: what the walk's product holds at the end of a block.
+  * `pm1_walk_stop_prime_kept`: the content behind `pm1_walk_includes_stop_prime` (which only unfolds `walk`).
+  * `pm1_baby_complete`: the baby steps of `pm1_stage2_polyeval` never panic and hold `g^r` for exactly the `r` of
+    `isPm1Baby` (the set `pm1_cover` / `pm1_found` quantify over).
+  * `pm1_polyeval_baby_assert_holds`, `pm1_polyeval_giant_assert_holds`: the two `debug_assert!`s of
+    `pm1_stage2_polyeval` (now evaluated by the model: `expCheckPanics`) never fail; `pm1_polyeval_no_panic_partial`:
+    `polyVals` has no panic (hypothesis: length of the model's baby list + 1 ≤ d2).
   Still open: the gcd-chain property of `gpows`/`products` handed to `check_gcd_factors` (its `debug_assert!`s) across a
-  ring shrink, hence no `pm1_impl_no_panic` for the whole function.
+  ring shrink, hence no `pm1_impl_no_panic` for the whole function; the walk across sieve blocks (`walkOuter`); the
+  composition of `pm1_found` with `from_roots` / the chirp-z convolution of `polyVals` (`pm1_polyeval_found`).
 -/
 import Ymq.Lemmas.Pp1Baby
 import Ymq.Lemmas.Pm1Walk
 import Ymq.Lemmas.Pm1Baby
+import Ymq.Lemmas.Pm1Giant
 import Ymq.Props.C16Pp1
 import Ymq.Props.C16Pm1
 
@@ -171,6 +179,28 @@ theorem pm1_walk_found_partial {m g b2 : Nat} (hm : 0 < m) {w w' : W} (hinv : WI
   subst h1
   exact ⟨h5, h6⟩
 
+/-- **The stop prime's term stays in the product** (the content behind `pm1_walk_includes_stop_prime`, which is only
+the unfolding of `walk`): for every ring modulus `m > 0` and every odd stop prime `p_prev < 2^64`, the walk starts
+without a panic and, after the first sieve block it walks (increasing odd numbers), every divisor `q` of `m` with
+`g^p_prev ≡ 1 (mod q)` divides the running product — also when no later prime contributes.  A walk started at
+`product = 1` (seeded change C16-3) does not satisfy this. -/
+theorem pm1_walk_stop_prime_kept {m : Nat} (hm : 0 < m) (g b2 : Nat) {pPrev : Nat} (hp : pPrev < 2 ^ 64)
+    (hodd : pPrev % 2 = 1) {blk : List Nat} (hsorted : blk.Pairwise (· < ·)) (hodds : ∀ p ∈ blk, p % 2 = 1) :
+    ∃ x w', expModn (mulm m) (onem m) g pPrev = some x ∧
+      walkBlock m (mulm m g g) b2 blk
+        { x := x, product := subm m x (onem m), productsRev := [onem m], gaps := [mulm m g g], pPrev := pPrev } = some w' ∧
+      ∀ q, q ∣ m → g ^ pPrev ≡ 1 [MOD q] → q ∣ w'.product := by
+  obtain ⟨x, hx, hinv, hq0⟩ := pm1_walk_stop_prime_found hm g pPrev hp
+  obtain ⟨w', hw, _, _⟩ := pm1_walk_block_no_panic (b2 := b2) hm hinv hodd hsorted hodds
+  exact ⟨x, w', hx, hw, fun q hq hd => (pm1_walk_found_partial hm hinv hodd hsorted hodds hw).1 q hq (hq0 q hq hd)⟩
+
+/-- non-vacuity: `m = 93 = 3·31`, `g = 2`, stop prime `5` (`2^5 ≡ 1 mod 31`), block `[7, 11]`: 31 divides the product -/
+example : (2 ^ 5 ≡ 1 [MOD 31]) ∧ expModn (mulm 93) (onem 93) 2 5 = some 32 ∧
+    (walkBlock 93 (mulm 93 2 2) 11 [7, 11]
+      { x := 32, product := subm 93 32 (onem 93), productsRev := [onem 93], gaps := [mulm 93 2 2], pPrev := 5 }).map
+      (fun w => w.product % 31) = some 0 := by
+  refine ⟨by decide, by decide +kernel, by decide +kernel⟩
+
 /-- non-vacuity: `m = 381 = 3·127`, `g = 2`, stop prime `5`, block `[7, 11, 13]`, `b2 = 11`: `2^7 ≡ 1 mod 127` and
 the product after the block is divisible by 127 -/
 example : (2 ^ 7 ≡ 1 [MOD 127]) ∧ expModn (mulm 381) (onem 381) 2 5 = some 32 ∧
@@ -213,5 +243,47 @@ theorem pm1_baby_complete (m g : Nat) {d1 : Nat} (h6 : 6 ∣ d1) (hd : 0 < d1) :
 example : (6 : Nat) ∣ 30 ∧ Ymq.Pm1Impl.babySteps 1009 30 3 = some [3, 169, 572, 103, 271, 421, 804, 896, 1001] ∧
     ((List.range 32).filter (isPm1Baby 30)) = [1, 7, 11, 13, 17, 19, 23, 29, 31] := by
   refine ⟨by decide, by decide +kernel, by decide +kernel⟩
+
+/-- **The second `debug_assert!` of `pm1_stage2_polyeval` never fails** (`gexp == exp_modn(g, d2²·d1/2)`, evaluated by
+the model since the second pass: `polyVals` is `none` when it fails or when its `exp_modn` panics): for every ring
+modulus `m > 0`, a reduced `g`, an even `d1`, `d2 ≥ 1` and `d2²·d1 < 2^64` (the guard of the assertion), with
+`dg = exp_modn(g, d1/2)`. -/
+theorem pm1_polyeval_giant_assert_holds {m g d1 d2 dg : Nat} (hm : 0 < m) (hg : g < m) (hd1 : d1 % 2 = 0) (hd2 : 1 ≤ d2)
+    (hfit : d2 * d2 * d1 < 2 ^ 64) (hdg : expModn (mulm m) (onem m) g (d1 / 2) = some dg) :
+    Ymq.Pm1Impl.expCheckPanics m g
+      (Ymq.Pm1Impl.gexpEnd m (Ymq.Pm1Impl.giantLoop m (mulm m dg dg) d2 (onem m) dg [] [])) (d2 * d2 * d1 / 2) = false :=
+  Ymq.Pm1Impl.giant_assert_holds hm hg hd1 hd2 hfit hdg
+
+example : expModn (mulm 1009) (onem 1009) 3 (30 / 2) = some 927 ∧ 4 * 4 * 30 < 2 ^ 64 ∧
+    Ymq.Pm1Impl.gexpEnd 1009 (Ymq.Pm1Impl.giantLoop 1009 (mulm 1009 927 927) 4 (onem 1009) 927 [] []) = 3 ^ 240 % 1009 := by
+  refine ⟨by decide +kernel, by norm_num, by decide +kernel⟩
+
+/-- **The first `debug_assert!` of `pm1_stage2_polyeval` never fails** (`bg == exp_modn(g, bexp)` after the baby loop),
+and the baby loop does not panic: for every ring modulus `m > 0`, a reduced `g` and `d1 + 1 < 2^64`. -/
+theorem pm1_polyeval_baby_assert_holds {m g d1 : Nat} (hm : 0 < m) (hg : g < m) (hd : d1 + 1 < 2 ^ 64) :
+    ∃ vs, Ymq.Pm1Impl.babySteps m d1 g = some vs ∧
+      Ymq.Pm1Impl.expCheckPanics m g (vs.getLast?.getD g) (Ymq.Pm1Impl.babyLastExp d1 (d1 + 2) 1 1) = false :=
+  Ymq.Pm1Impl.baby_assert_holds hm hg hd
+
+example : Ymq.Pm1Impl.babyLastExp 30 32 1 1 = 31 ∧ (0 < 1009) ∧ (3 < 1009) ∧ 30 + 1 < 2 ^ 64 := by
+  refine ⟨by decide +kernel, by decide, by decide, by norm_num⟩
+
+/-- **`pm1_stage2_polyeval` does not panic** up to the cumulative products handed to `gcd_factors` (`polyVals`; the
+panic sites of `gcd_factors` itself are `gcd_factors_prod`): for every ring modulus `m > 0`, a reduced `g`, `6 ∣ d1`,
+`d1 + 1 < 2^64`, `d2` a power of two `≥ 56` (an NTT exists) — the `assert!`s, both `debug_assert!`s, the three `exp_modn`
+calls, the gap-table indices, `negsteps[i]` and `p.len() − 2` are all passed.
+`_partial`: that the number of baby steps is `pm1Deg d1` (so that `hlen` is `pm1Deg d1 + 1 ≤ d2`, a fact of the table
+rows: `pm1_degree`, `pm1_poly_rows`) is not derived from `pm1_baby_complete` (no-duplicates of the index list is missing);
+it enters as the hypothesis `hlen` on the model's own baby list. -/
+theorem pm1_polyeval_no_panic_partial {m g d1 d2 : Nat} (hm : 0 < m) (hg : g < m) (h6 : d1 % 6 = 0) (hd : d1 + 1 < 2 ^ 64)
+    (hpow : d2 = 2 ^ Nat.log2 d2) (h56 : 56 ≤ d2)
+    (hlen : ∀ vs, Ymq.Pm1Impl.babySteps m d1 g = some vs → vs.length + 1 ≤ d2) :
+    (Ymq.Pm1Impl.polyVals m d1 d2 g).isSome = true :=
+  Ymq.Pm1Impl.polyVals_isSome hm hg h6 hd hpow h56 hlen
+
+example : (30 % 6 = 0) ∧ (64 = 2 ^ Nat.log2 64) ∧ (56 ≤ 64) ∧
+    (Ymq.Pm1Impl.babySteps 1009 30 3).map (fun vs => decide (vs.length + 1 ≤ 64)) = some true ∧
+    (Ymq.Pm1Impl.polyVals 1009 30 64 3).isSome = true := by
+  refine ⟨by decide, by decide +kernel, by decide, by decide +kernel, by decide +kernel⟩
 
 end Ymq.C16
